@@ -406,9 +406,21 @@ def parse_addr(s):
 @contract
 class LoaderLoad(Contract):
     qualname = LQ + "load"
-    callable_by_contract = False
+    # call-site model only inside the verification of load_scenario (which is about WHICH loader object is used and
+    # what it is handed); everywhere else the real body is executed
+    callable_by_contract = staticmethod(lambda I: bool(I.ext_state.get("model_loader_load")))
     unbounded = False
     own_bounds = True
+    optional_params_modelled = ("name",)
+
+    def bind(self, I, fi, args, kwargs):
+        return Scope(a=I.bind_params(fi, args, kwargs))
+
+    def havoc(self, I, S):
+        I.ext_state["loader_load_call"] = dict(S.a)
+        r = Opaque("scenario returned by ScenarioLoader.load")
+        I.ext_state["loader_load_result"] = r
+        return r
     # the step limit the environment counts against is the one this load produced (C06: "never, if there is none")
     tags = {"C17": ("C17", "C02"), "C17.host-os-services-processes": ("C17", "C09", "C01"), "C18": ("C18",),
             "C17.step-limit": ("C17", "C06"), "raises": ("C17",), "frame": ("C17", "C19", "C06")}
@@ -532,6 +544,8 @@ class LoaderLoad(Contract):
         return f"C18.rejects:{S.extra['rule']}"
 
     def ensures(self, I, S):
+        if getattr(S, "callsite", False):
+            return []
         rule = S.extra["rule"]
         if rule != "valid":
             return [(f"C18.rejects:{rule}", z3.BoolVal(False))]       # returned normally: the rule was not enforced
